@@ -295,7 +295,12 @@ func run(id, tier string) int {
 				if ee, ok := rerr.(*exec.ExitError); ok && ee.ExitCode() != 1 && ee.ExitCode() != 2 {
 					crashed = true // the replay process itself died: the crash reproduces
 				}
-				if ck.ReplayLoose && strings.Contains(string(out), "REPLAY-VIOLATION key=") {
+				if ck.ReplayLoose {
+					// race reports are hard evidence on their own (the detector has no false positives) but it does
+					// not promise to report a given race in every run (shadow-cell eviction): replays are informative only
+					if strings.Contains(string(out), "REPLAY-VIOLATION key=") {
+						break
+					}
 					continue
 				}
 				if !strings.Contains(string(out), "REPLAY-VIOLATION key="+k+" ") && !(k == "crash" && crashed) {
